@@ -202,26 +202,8 @@ def pins_rolegraph(out):
     body = fn_body(enf, r"async\s+fn\s+new_raw\s*<") or ""
     m = re.search(r"DefaultRoleManager::new\(\s*(\d+)\s*\)", body)
     out.append("Definition pin_hierarchy_limit : nat := %s." % (m.group(1) if m else "0"))
-    f = "src/rbac/default_role_manager.rs"
-    imp = r"impl\s+RoleManager\s+for\s+DefaultRoleManager"
-    pin_bodies(out, "rm", [
-        ("get_or_create_role", f, r"fn\s+get_or_create_role\s*\("),
-        ("matched_domains", f, r"fn\s+matched_domains\s*\("),
-        ("domain_has_role", f, r"fn\s+domain_has_role\s*\("),
-        ("clear", f, r"fn\s+clear\s*\(", imp),
-        ("add_link", f, r"fn\s+add_link\s*\(", imp),
-        ("delete_link", f, r"fn\s+delete_link\s*\(", imp),
-        ("has_link", f, r"fn\s+has_link\s*\(", imp),
-        ("get_roles", f, r"fn\s+get_roles\s*\(", imp),
-        ("get_users", f, r"fn\s+get_users\s*\(", imp),
-        ("bfs_new", f, r"pub\s+fn\s+new\s*\(", r"impl\s+Bfs\b"),
-        ("bfs_next", f, r"pub\s+fn\s+next\s*\(", r"impl\s+Bfs\b"),
-        ("bfs_update_depth", f, r"fn\s+update_depth\s*\(", r"impl\s+Bfs\b"),
-        ("bfs_iterator", f, r"fn\s+bfs_iterator\s*\("),
-        ("link_if_matches", f, r"fn\s+link_if_matches\s*\("),
-        ("matching_fn", f, r"fn\s+matching_fn\s*\(", imp),
-        ("new", f, r"pub\s+fn\s+new\s*\(", r"impl\s+DefaultRoleManager"),
-    ])
+    # the bodies of default_role_manager.rs are no longer hash-pinned: rs2coq part 11 (tools/rs2coq_rm.py) translates every
+    # non-test fn of the file each run and PinChecks/PcRoleManagerGen.v proves the translation equal to Model/RoleGraphM.v
 
 
 def impl_start(tr, ty):
